@@ -4,6 +4,7 @@
 -/
 import NetflowModel.Arms
 import NetflowModel.Generated
+import NetflowModel.Common
 namespace Netflow.G1
 open Netflow
 
@@ -30,5 +31,35 @@ theorem dnToBE_eq_generated (d : DataNumber) : d.toBE = dnToBEBy Generated.dnExp
 theorem dnUsize_all_casts :
     ∀ a : DnArm, a ∈ Generated.dnUsizeCasts := by
   intro a; cases a <;> decide
+
+/-! ### the conversions of the common view -/
+
+theorem asU8_eq_generated (v : FieldValue) : (asU8 v).map Int.ofNat = convNumBy Generated.convNumArms "u8" v := by
+  cases v with
+  | num d => cases d <;> rfl
+  | _ => rfl
+
+theorem asU16_eq_generated (v : FieldValue) : (asU16 v).map Int.ofNat = convNumBy Generated.convNumArms "u16" v := by
+  cases v with
+  | num d => cases d <;> rfl
+  | _ => rfl
+
+theorem asU32_eq_generated (v : FieldValue) : (asU32 v).map Int.ofNat = convNumBy Generated.convNumArms "u32" v := by
+  cases v with
+  | num d => cases d <;> rfl
+  | _ => rfl
+
+theorem asString_eq_generated (v : FieldValue) : asString v = convStringBy Generated.convStringTags v := by
+  cases v <;> rfl
+
+theorem asIp_eq_generated (v : FieldValue) : asIp v = convIpBy Generated.convIpTags v := by
+  cases v <;> rfl
+
+/-- the target types of the projected fields (they select which conversion runs) are the ones `commonOfRec` uses -/
+theorem commonFlowTypes_as_modelled :
+    Generated.commonFlowTypes =
+      [("src_addr", "IpAddr"), ("dst_addr", "IpAddr"), ("src_port", "u16"), ("dst_port", "u16"), ("protocol_number", "u8"),
+       ("protocol_type", "ProtocolTypes"), ("first_seen", "u32"), ("last_seen", "u32"), ("src_mac", "String"), ("dst_mac", "String")] := by
+  decide
 
 end Netflow.G1
